@@ -41,6 +41,6 @@ pub fn registry() -> Vec<PropEntry> {
         PropEntry { meta: &histprops::C13_META, check: |c| histprops::hist_check(c, &histprops::C13), replay: |_, sub, v| histprops::c13_replay(sub, v), fuzz: Some(|_| histprops::hist_fuzz_subs(&histprops::C13)) },
         PropEntry { meta: &histprops::C14_META, check: |c| histprops::hist_check(c, &histprops::C14), replay: |_, sub, v| histprops::c14_replay(sub, v), fuzz: Some(|_| histprops::hist_fuzz_subs(&histprops::C14)) },
         PropEntry { meta: &histprops::C15_META, check: |c| histprops::hist_check(c, &histprops::C15), replay: |_, _, v| histprops::hist_replay(&histprops::C15, v), fuzz: Some(|_| histprops::hist_fuzz_subs(&histprops::C15)) },
-        PropEntry { meta: &histprops::C16_META, check: |c| histprops::hist_check(c, &histprops::C16), replay: |_, _, v| histprops::hist_replay(&histprops::C16, v), fuzz: Some(|_| histprops::hist_fuzz_subs(&histprops::C16)) },
+        PropEntry { meta: &histprops::C16_META, check: |c| histprops::hist_check(c, &histprops::C16), replay: |_, sub, v| histprops::c16_replay(sub, v), fuzz: Some(|_| histprops::hist_fuzz_subs(&histprops::C16)) },
     ]
 }
